@@ -225,6 +225,64 @@ def write_obligations(tabs, info, kinds=('c01', 'c03', 'c05', 'c07', 'c08')):
     return names, missing, mods
 
 
+NEEDS_ENGINE = {'c01', 'c03', 'c05', 'c06', 'c04'}
+INST_IMPORTS = {'c06': ('c06', 'c01', 'c03', 'c07', 'c08'), 'c04': ('c01',)}
+
+
+def write_instances(tabs, info, kinds):
+    """IRGen/Inst_<kind>.lean: the property statement `C<nn>Holds P_x W_x tol` for every protocol of the fragment, proved
+    by applying the theorem of Props/Instances.lean to that protocol's generated obligations (kernel-checked glue).
+    returns the module names.  kinds may contain 'c04' (accept half; needs the c01 wrapper obligations)."""
+    frag = json.load(open(os.path.join(vlib.VERIF, 'tools', 'fragment.json')))
+    have = {t['name'] for t in tabs if t['modelled']}
+    clsA, clsB, tolA = set(frag['classA']), set(frag.get('classB', [])), set(frag.get('tolA', []))
+    mods = []
+    for kind in kinds:
+        fkey = KINDS[kind][0] if kind in KINDS else 'wrapC01'
+        deps = INST_IMPORTS.get(kind, (kind,))
+        lines = ['import IRGen.Tables', 'import IRGen.Wrap', 'import IRModel.Props.Instances']
+        if kind in NEEDS_ENGINE:
+            lines.append('import IRGen.Obligations')
+        lines += ['import IRGen.WrapObl_' + d for d in deps]
+        lines += ['/-! GENERATED by tools/wrapgen.py on every run: property %s stated for each protocol of the fragment and proved from its obligations. -/' % kind.upper(),
+                  'namespace IRGen.Inst', 'open IRModel IRModel.Wrap IRModel.Props.Wrapper IRGen.WrapObl' + (' IRGen.Obl' if kind in NEEDS_ENGINE else ''), '']
+        H = kind.upper() + 'Holds'
+        for n in frag.get(fkey, []):
+            inf = info.get(n)
+            if not inf or not inf.get('emitted') or n not in have:
+                continue
+            i = extract.lean_ident(n)[2:]
+            if any(n not in frag.get(KINDS[d][0], []) for d in deps):
+                continue
+            if kind in NEEDS_ENGINE:
+                if kind == 'c04':
+                    if n not in clsA or n not in tolA:
+                        continue
+                elif n not in clsA and n not in clsB:
+                    continue
+                for tol in ((20,) if kind == 'c03' else (5, 10, 20)):
+                    eng = ('(.A wf_%s_%d)' if n in clsA else '(.B wfB_%s_%d)') % (i, tol)
+                    if kind == 'c03':
+                        lines.append('theorem %s_%s : C03Holds IRGen.P_%s IRGen.W_%s := C03_holds _ _ ⟨%d, 1⟩ ⟨by decide, by decide⟩ %s c03w_%s' % (kind.upper(), i, i, i, tol, eng, i))
+                    elif kind == 'c04':
+                        lines.append('theorem C04_%s_%d : C04Holds IRGen.P_%s IRGen.W_%s ⟨%d, 1⟩ := C04_holds _ _ _ ⟨by decide, by decide⟩ wf_%s_%d wftol_%s_%d c01w_%s' % (i, tol, i, i, tol, i, tol, i, tol, i))
+                    elif kind == 'c06':
+                        lines.append('theorem C06_%s_%d : C06Holds IRGen.P_%s IRGen.W_%s ⟨%d, 1⟩ := C06_holds _ _ _ ⟨by decide, by decide⟩ %s c01w_%s c03w_%s c06w_%s c07w_%s c08w_%s' % (i, tol, i, i, tol, eng, i, i, i, i, i))
+                    else:
+                        lines.append('theorem %s_%s_%d : %s IRGen.P_%s IRGen.W_%s ⟨%d, 1⟩ := %s_holds _ _ _ ⟨by decide, by decide⟩ %s %sw_%s' % (kind.upper(), i, tol, H, i, i, tol, kind.upper(), eng, kind, i))
+            else:
+                lines.append('theorem %s_%s : %s IRGen.P_%s IRGen.W_%s := %s_holds _ _ %sw_%s' % (kind.upper(), i, H, i, i, kind.upper(), kind, i))
+        lines.append('end IRGen.Inst')
+        mod = 'Inst_' + kind
+        path = os.path.join(vlib.LEAN, 'IRGen', mod + '.lean')
+        src = '\n'.join(lines) + '\n'
+        old = open(path).read() if os.path.exists(path) else None
+        if old != src:
+            open(path, 'w').write(src)
+        mods.append('IRGen.' + mod)
+    return mods
+
+
 if __name__ == '__main__':
     tabs = extract.tables()
     extract.write_lean(tabs)
